@@ -8,7 +8,7 @@ from vgen import corpus
 
 RULE = ("real MoleculeStandardizer()(smiles) on generated families (enols, enolates and other charged oxygen "
         "species, gem-diols/triols/orthoesters, hemiketals with alkoxy groups, metal alkoxides, polyenols, "
-        "mixtures) and on corpus molecules, each in several random atom orders; and on every standardiser call "
+        "mixtures, cascades in which one rewrite creates the next group) and on corpus molecules, each in several random atom orders; and on every standardiser call "
         "made inside real pipeline runs; oracle: no exception, parsable output, same composition and charge, "
         "idempotent; distinct non-trivial = distinct inputs in which the library's own functional-group query "
         "finds an enol or hemiketal group (a rewrite is attempted)")
@@ -29,6 +29,11 @@ FAMILIES = [
     ("mixture", ["C=CO.CC(O)(O)%s", "OC(O)%s.OC(O)C", "C=C(O)%s.C=CO", "O.C=C(O)%s", "C=CO.[Na+].[Cl-]",
                  "COC(O)%s.C=C(C)O"]),
     ("mixed_groups", ["OC(O)C=C(O)%s", "C=C(O)C(O)(O)%s", "OC(=C)C(O)O", "C(O)(O)C=CO", "COC(O)C=C(O)%s"]),
+    # a rewrite that creates a new group: the alkoxy group leaving a hemiketal is itself an enol(-ether), a
+    # hemiketal of a hemiketal, an enol next to the carbon that loses its hydroxyl ...
+    ("cascade", ["C=COC(C)(O)%s", "C=COC(O)%s", "CC=COC(O)(C)%s", "OC1(%s)CCC=CO1", "OC1(C)OC=CC1%s", "C=C(%s)OC(C)(C)O",
+                 "OC(%s)(C)OC(C)(C)O", "COC(O)(OC(C)(C)O)%s", "C=COC(O)(O)%s", "OC(O)(OC=C)OC=C", "OC(%s)OC(C)=C",
+                 "OC(C)(OC=C)OC(C)(O)%s", "C=COC(O)(%s)C=CO", "OC1(OC=C)CCCC1", "OC(OC(=C)%s)C=C"]),
     ("no_group", ["%sC(=O)C", "%sCO", "%sC(=O)O", "%sOC", "c1ccccc1%s"]),
 ]
 
